@@ -1035,6 +1035,11 @@ def synchronized(name):
             if arbiter is not None:
                 if arbiter._restarting:
                     raise ConflictError("arbiter is restarting...")
+                if getattr(arbiter, '_stopping', False) and \
+                        name != "manage_watchers":
+                    # nothing may be started any more: the loop is about
+                    # to be stopped and would leave it behind
+                    raise ConflictError("arbiter is stopping...")
                 if arbiter._exclusive_running_command is not None:
                     raise ConflictError("arbiter is already running %s command"
                                         % arbiter._exclusive_running_command)
